@@ -201,7 +201,7 @@ pub const KEY_POOL: &[&str] = &[
 
 pub fn gen_key(rng: &mut Rng, i: usize) -> String {
     if rng.chance(1, 12) {
-        let n = rng.pick(&[255usize, 256, 257, 1000, 65536]);
+        let n = rng.pick(&[255usize, 256, 257, 1000, 1000, 4096, 65536]);
         let mut s = "L".repeat(n);
         s.push_str(&i.to_string());
         s
